@@ -340,52 +340,73 @@ def withFilters (s : Sequence) (apply : Bool) (d : Dict Chan Element.ChOut) :
     Except Err (Dict Chan ChOutF) :=
   d.mapM (s.attach apply)
 
-/-- `Sequence.forge(apply_delays, apply_filters, includetime)` -/
+/-- the entry at every position 1..N, in order (KeyError if one is missing) -/
+def entriesInOrder (s : Sequence) : Except Err (List (Nat × Entry)) :=
+  (List.range s.data.length).mapM (fun (i : Nat) =>
+    match Dict.get? s.data ((i + 1 : Nat) : Int) with
+    | none => .error .key
+    | some en => .ok (i + 1, en))
+
+/-- phase 1 of `forge`: the channel delays applied to (a deep copy of) one entry; for a
+    subsequence, to every one of its elements -/
+def delayEntry (s : Sequence) (apply : Bool) : Entry → Except Err Entry
+  | .el e => if apply then (s.delayElement e).map Entry.el else .ok (.el e)
+  | .sub sub =>
+    if apply then
+      (sub.data.mapM (fun pe => (s.delayElement pe.2).map (fun e' => (pe.1, e')))).map
+        (fun d => Entry.sub { sub with data := d })
+    else .ok (.sub sub)
+
+/-- per inner position: (position, per-channel arrays, own sequencing for subsequence positions) -/
+abbrev RawContent := List (Nat × Dict Chan Element.ChOut × Option SeqSet)
+
+/-- phase 2 for a subsequence: arrays and own sequencing of its positions 1..n -/
+def forgeInner (t : Bool) (sub : SubSeq) : Except Err RawContent :=
+  (List.range sub.data.length).mapM (fun (j : Nat) =>
+    match Dict.get? sub.data ((j + 1 : Nat) : Int) with
+    | none => .error .key
+    | some e =>
+      match e.getArrays t with
+      | .error er => .error er
+      | .ok arr =>
+        match Dict.get? sub.sequencing ((j + 1 : Nat) : Int) with
+        | none => .error .key
+        | some q2 => .ok (j + 1, arr, some q2))
+
+/-- phase 2: the arrays of one (delayed) entry together with the position's sequencing entry -/
+def forgeEntry (s : Sequence) (t : Bool) (x : Nat × Entry) : Except Err (Nat × SeqSet × Bool × RawContent) :=
+  match Dict.get? s.sequencing (x.1 : Int) with
+  | none => .error .key
+  | some sq =>
+    match x.2 with
+    | .el e => (e.getArrays t).map (fun arr => (x.1, sq, false, [(1, arr, none)]))
+    | .sub sub => (forgeInner t sub).map (fun inner => (x.1, sq, true, inner))
+
+/-- phase 3: the declared filters attached to every forged channel -/
+def filterEntry (s : Sequence) (f : Bool) (x : Nat × SeqSet × Bool × RawContent) : Except Err (Nat × ForgedPos) :=
+  (x.2.2.2.mapM (fun c => (s.withFilters f c.2.1).map (fun a => (c.1, a, c.2.2)))).map
+    (fun content => (x.1, { sequencing := x.2.1, isSub := x.2.2.1, content := content }))
+
+/-- `Sequence.forge(apply_delays, apply_filters, includetime)`: consistency gate, then three
+    passes over the positions 1..N — delays, arrays, filters -/
 def forge (s : Sequence) (applyDelays applyFilters includetime : Bool) :
-    Except Err (List (Nat × ForgedPos)) := do
-  if !(← s.checkConsistency) then throw .value
-  let _ ← s.channels
-  let seqlen := s.data.length
-  -- delays on a deep copy
-  let delayed : List (Nat × Entry) ← (List.range seqlen).mapM (fun (i : Nat) => do
-    let pos : Nat := i + 1
-    match Dict.get? s.data (pos : Int) with
-    | none => throw .key
-    | some (.el e) =>
-      if applyDelays then pure (pos, Entry.el (← s.delayElement e)) else pure (pos, Entry.el e)
-    | some (.sub sub) =>
-      if applyDelays then
-        let d ← sub.data.mapM (fun (p, e) => do pure (p, ← s.delayElement e))
-        pure (pos, Entry.sub { sub with data := d })
-      else pure (pos, Entry.sub sub))
-  -- forge arrays
-  let forged ← delayed.mapM (fun ((pos : Nat), en) => do
-    let sq ← match Dict.get? s.sequencing (pos : Int) with
-      | some q => pure q
-      | none => throw Err.key
-    match en with
-    | .el e =>
-      let arr ← e.getArrays includetime
-      pure (pos, arr, sq, ([] : List (Nat × Dict Chan Element.ChOut × Option SeqSet)), false)
-    | .sub sub =>
-      let inner ← (List.range sub.data.length).mapM (fun (j : Nat) => do
-        let p2 : Nat := j + 1
-        match Dict.get? sub.data (p2 : Int) with
-        | none => throw Err.key
-        | some e =>
-          let arr ← e.getArrays includetime
-          match Dict.get? sub.sequencing (p2 : Int) with
-          | none => throw Err.key
-          | some q2 => pure (p2, arr, some q2))
-      pure (pos, [], sq, inner, true))
-  -- filters
-  forged.mapM (fun (pos, arr, sq, inner, isSub) => do
-    if isSub then
-      let content ← inner.mapM (fun (p2, a, q2) => do pure (p2, ← s.withFilters applyFilters a, q2))
-      pure (pos, { sequencing := sq, isSub := true, content := content })
-    else
-      pure (pos, { sequencing := sq, isSub := false,
-                   content := [(1, ← s.withFilters applyFilters arr, none)] }))
+    Except Err (List (Nat × ForgedPos)) :=
+  match s.checkConsistency with
+  | .error e => .error e
+  | .ok false => .error .value
+  | .ok true =>
+    match s.channels with
+    | .error e => .error e
+    | .ok _ =>
+      match s.entriesInOrder with
+      | .error e => .error e
+      | .ok ents =>
+        match ents.mapM (fun x => (s.delayEntry applyDelays x.2).map (fun en => (x.1, en))) with
+        | .error e => .error e
+        | .ok delayed =>
+          match delayed.mapM (s.forgeEntry includetime) with
+          | .error e => .error e
+          | .ok forged => forged.mapM (s.filterEntry applyFilters)
 
 /-- the delay part of `_prepareForOutputting` for one element; `chans` is element(1)'s channel
     list, `delays` the matching delays -/
